@@ -125,7 +125,7 @@ func Harness_C05_Route(nf int) {
 	switch qSel {
 	case 1:
 		finder = "search"
-		qs = append(qs, "q=search", "q2=x") // q2 is ignored; the finder's own parameter is named q as well
+		qs = append(qs, "q=search", "kw=x")
 	case 2:
 		finder = "nosuch"
 		qs = append(qs, "q=nosuch")
@@ -400,7 +400,7 @@ func Harness_C05_Filters(nf int) {
 	case 0:
 		rec, _ = serve(h, "GET", "/things/k", nil, nil)
 	case 1:
-		rec, _ = serve(h, "GET", "/things?q=search", nil, nil)
+		rec, _ = serve(h, "GET", "/things?q=search&kw=x", nil, nil)
 	case 2:
 		rec, _ = serve(h, "GET", "/things/k/nope", nil, nil)
 		routed = false
